@@ -173,6 +173,12 @@ def C04(tr):
             missing = sorted(set(executed) - set(map(str, idx)))
             extra = sorted(set(map(str, idx)) - set(executed))
             out.append(V('C04', 'table_rows', f"task table rows != executed tasks (missing {missing[:4]}, extra {extra[:4]})"))
+    # "has executed": every row of the returned table describes a finished execution
+    if tdf is not None and 'aft' in getattr(tdf, 'columns', []):
+        for tid, row in tdf.iterrows():
+            if row['aft'] is None or row['aft'] < 0 or row['aft'] < row['ast']:
+                out.append(V('C04', 'row_without_finish', f"task table row {tid}: ast {row['ast']}, aft {row['aft']} on return"))
+                break
     # quiescence
     if any(s['alloc'] is not None for s in tr.m.values()):
         out.append(V('C04', 'task_still_running', "an allocation is still active on return"))
